@@ -18,7 +18,7 @@ def _sid(seg):
 
 
 def _snap(p):
-    return [_sid(s) for s in p._segments]
+    return [_sid(s) for s in list(p)]
 
 
 def _install():
@@ -41,9 +41,9 @@ def _install():
         if len(TRACES) > 4000:
             return True, True, True
         try:
-            f = Path(*p._segments)
+            f = Path(*list(p))
             ok_len = True
-            if len(p._segments) and all(isinstance(s, P.Line) for s in p._segments):
+            if len(list(p)) and all(isinstance(s, P.Line) for s in list(p)):
                 ok_len = abs(p.length() - f.length()) <= 1e-9 * max(1.0, abs(f.length()))
             return bool(ok_len), p.start == f.start, p.end == f.end
         except Exception:      # noqa
@@ -107,13 +107,13 @@ def _install():
         before = _snap(self)
         o_start.fset(self, pt)
         if before:
-            log(self, before, {'op': 'SetStart', 's': _sid(self._segments[0])})
+            log(self, before, {'op': 'SetStart', 's': _sid(self[0])})
 
     def w_end(self, pt):
         before = _snap(self)
         o_end.fset(self, pt)
         if before:
-            log(self, before, {'op': 'SetEnd', 's': _sid(self._segments[-1])})
+            log(self, before, {'op': 'SetEnd', 's': _sid(self[-1])})
     Path.start = property(o_start.fget, w_start)
     Path.end = property(o_end.fget, w_end)
 
